@@ -1,5 +1,6 @@
 import LabtechModel.Proofs.PathLemmas
 import LabtechModel.Proofs.PathTouch
+import LabtechModel.Proofs.PathRoot
 /-!
 # C18 — Local storage never reads, writes or deletes outside its directory
 
@@ -25,6 +26,20 @@ Two levels:
   of an accepted key path (`key_end_not_symlink`); the node-level statements
   (`file_handle_touches_partial`, `delete_touches_partial`) only assume that the resolution of the
   *storage directory's own path* met no loop.
+
+What that hypothesis amounts to (section "the storage root" at the end):
+* it is NECESSARY for the conclusion as stated (`root_loop_witness`: a root `/s -> l/../t`, `/l -> l`,
+  `/t -> /o` resolves to `r = /t`, and `delete('k')` removes `/o/k`, which is not `r/k` as a node);
+* it FOLLOWS from a property of the tree alone: the stored root is a normal path none of whose
+  prefixes is a symlink (`root_linkfree_no_loop`; theorems `…_linkfree_root`) — which is what
+  `LocalStorage.__init__` establishes, `self._storage_path = storage_dir.resolve()`, when that
+  constructor-time resolution met no loop and the tree above the root has not been changed since
+  (`…_ctor_partial`: all hypotheses are about the constructor-time tree + a frame condition);
+* with NO hypothesis on the root at all the node-level confinement still holds relative to the
+  directory `R` that the kernel reaches through `storage_path.resolve()`: `delete` removes only the
+  child `R/c` (`delete_touches_real`), `file_handle` creates only `R/c` and writes only a direct
+  child `K/f` of the directory `K` the kernel reaches through the key path `r/c`
+  (`file_handle_touches_real`). If `r` is symlink-free then `R = r`.
 -/
 namespace Lt.Props.C18
 open Lt.Path
@@ -293,7 +308,12 @@ checks `is_symlink()` on both resolved paths, which closes the loop-fallback of 
 (`realpath_link_free_fails`) on either side (`key_end_not_symlink`, `open_end_not_symlink`).
 `LocalStorage.__init__` stores `storage_dir.resolve()`, a path without `.`/`..`; if that path later
 runs into a symlink loop, `resolve()` raises `RuntimeError` in every run of the harness, but that the
-loop-fallback can never be accepted for the storage path itself is not proved — hence the hypothesis. -/
+loop-fallback can never be accepted for the storage path itself is not proved — hence the hypothesis.
+Section "the storage root" at the end: the hypothesis is necessary for this conclusion
+(`root_loop_witness`), follows from "no prefix of the stored root is a symlink"
+(`…_linkfree_root`, `…_ctor_partial`), and is not needed at all when the conclusion is stated
+relative to the directory the kernel reaches through `r` (`delete_touches_real`,
+`file_handle_touches_real`). -/
 
 /-- an accepted key resolves to a path that `is_symlink()` answered `False` for (unconditional) -/
 theorem key_end_not_symlink (fs : FS) (fuel : Nat) (sp : RPath) (key : List Char) (kp : RPath)
@@ -401,5 +421,198 @@ example :
     (opDelete (([['s'], ['e']], .link ['/', 'o']) :: fsW) 5 ⟨false, [['s']]⟩ ['e']).result = .error .storage ∧
     (opDelete fsW 5 ⟨false, [['s']]⟩ ['k']).touched = [.remove [['s'], ['k']]] := by decide
 example : (opExists fsW 5 ⟨false, [['s']]⟩ ['.', '.']).result = .error .storage := by decide
+
+/-! ## the storage root
+
+`LocalStorage.__init__` stores `self._storage_path = storage_dir.resolve()` once; every operation
+re-resolves `self._storage_path / key` and compares with `self._storage_path.resolve()`. -/
+
+/-- the tree of `root_loop_witness`: the stored root `/s` is a symlink whose target `l/../t` runs
+    through the self-loop `/l`; `/t` is a symlink to the directory `/o`, which holds `k` -/
+def fsL : FS :=
+  [ ([['s']], .link ['l', '/', '.', '.', '/', 't']), ([['l']], .link ['l']),
+    ([['t']], .link ['/', 'o']), ([['o']], .dir), ([['o'], ['k']], .dir) ]
+
+/-- WITNESS that `NoLoopHit` cannot simply be dropped from `delete_touches_partial`: with the stored
+    root `/s`, `storage_path.resolve()` answers `/t` (loop fallback + `normpath`; the follow-up `stat`
+    of `/t` succeeds), the key `k` is accepted with key path `/t/k`, and `rmtree('/t/k')` removes the
+    node `/o/k` — not the node `r/k = /t/k`. (It IS the child `k` of the directory the kernel reaches
+    through `r`: `delete_touches_real`.) Not reachable through `LocalStorage.__init__` in an unchanged
+    tree: no `storage_dir` resolves to `/s` there, because the `stat('/s')` that `Path.resolve` ends
+    with fails with `ELOOP` = `RuntimeError`; see the report. -/
+theorem root_loop_witness :
+    resolve fsL 5 ⟨false, [['s']]⟩ = .ok ⟨false, [['t']]⟩ ∧
+    ¬ NoLoopHit fsL 5 ⟨false, [['s']]⟩ ∧
+    (opDelete fsL 5 ⟨false, [['s']]⟩ ['k']).touched = [.remove [['o'], ['k']]] ∧
+    kwalk fsL true linkBudget [] [['t']] = .ok [['o']] := by
+  refine ⟨by decide, ?_, by decide, by decide⟩
+  rintro ⟨r, hr, hok⟩
+  have h : jr fsL 5 [] [] [['s']] = .ok ⟨[['l'], ['.', '.'], ['t']], false, false, [([['l']], none), ([['s']], none)]⟩ := by
+    decide
+  rw [h] at hr
+  cases hr
+  cases hok
+
+/-- a stored root that is a normal path with no symlink among its prefixes — a property of the tree,
+    not of the run of `realpath` — resolves to itself and meets no loop -/
+theorem root_linkfree_no_loop (fs : FS) (fuel : Nat) (sp r : RPath) (hr : resolve fs fuel sp = .ok r)
+    (hl : LinkFree fs sp.comps) (hn : NormalP sp.comps) : NoLoopHit fs fuel sp ∧ r.comps = sp.comps :=
+  noLoop_of_linkFree fs fuel sp r hr hl hn
+
+/-- what the constructor establishes: if `storage_dir.resolve()` met no loop when the storage was
+    constructed (tree `fs0`) and no prefix of the stored root has been replaced since (`lstat` of every
+    prefix unchanged — nothing is assumed about what is inside the root), the stored root is a
+    symlink-free normal path in the current tree -/
+theorem ctor_root_link_free (fs0 fs : FS) (fuel0 : Nat) (dir sp : RPath)
+    (h0 : resolve fs0 fuel0 dir = .ok sp) (hn0 : NoLoopHit fs0 fuel0 dir)
+    (hframe : ∀ q, q <+: sp.comps → lstat fs q = lstat fs0 q) :
+    LinkFree fs sp.comps ∧ NormalP sp.comps := by
+  obtain ⟨hl, hn, _⟩ := realpath_link_free_partial fs0 fuel0 dir sp h0 hn0
+  exact ⟨fun q hq => by rw [hframe q hq]; exact hl q hq, hn⟩
+
+theorem delete_touches_linkfree_root (fs : FS) (fuel : Nat) (sp : RPath) (key : List Char) (r : RPath)
+    (hr : resolve fs fuel sp = .ok r) (hroot : sp.comps ≠ [])
+    (hl : LinkFree fs sp.comps) (hn : NormalP sp.comps) :
+    ∃ c, ∀ t ∈ (opDelete fs fuel sp key).touched, t = .remove (sp.comps ++ [c]) := by
+  obtain ⟨hR, he⟩ := root_linkfree_no_loop fs fuel sp r hr hl hn
+  rw [← he] at hroot ⊢
+  exact delete_touches_partial fs fuel sp key r hr hroot hR
+
+theorem file_handle_touches_linkfree_root (fs : FS) (fuel : Nat) (sp : RPath) (key fname mode : List Char)
+    (r : RPath) (hr : resolve fs fuel sp = .ok r) (hroot : sp.comps ≠ [])
+    (hl : LinkFree fs sp.comps) (hn : NormalP sp.comps) :
+    ∃ c, ∀ t ∈ (opFileHandle fs fuel sp key fname mode).touched,
+      t = .createDir (sp.comps ++ [c]) ∨ ∃ f, t = .write (sp.comps ++ [c, f]) := by
+  obtain ⟨hR, he⟩ := root_linkfree_no_loop fs fuel sp r hr hl hn
+  rw [← he] at hroot ⊢
+  exact file_handle_touches_partial fs fuel sp key fname mode r hr hroot hR
+
+/-- `delete`, every hypothesis about the CONSTRUCTOR-time tree `fs0` (+ the frame condition): the
+    only node removed is `root/c`.  Full statement: the same without `hn0` — open, see the header. -/
+theorem delete_touches_ctor_partial (fs0 fs : FS) (fuel0 fuel : Nat) (dir sp : RPath) (key : List Char)
+    (r : RPath) (h0 : resolve fs0 fuel0 dir = .ok sp) (hn0 : NoLoopHit fs0 fuel0 dir)
+    (hframe : ∀ q, q <+: sp.comps → lstat fs q = lstat fs0 q)
+    (hr : resolve fs fuel sp = .ok r) (hroot : sp.comps ≠ []) :
+    ∃ c, ∀ t ∈ (opDelete fs fuel sp key).touched, t = .remove (sp.comps ++ [c]) := by
+  obtain ⟨hl, hn⟩ := ctor_root_link_free fs0 fs fuel0 dir sp h0 hn0 hframe
+  exact delete_touches_linkfree_root fs fuel sp key r hr hroot hl hn
+
+theorem file_handle_touches_ctor_partial (fs0 fs : FS) (fuel0 fuel : Nat) (dir sp : RPath)
+    (key fname mode : List Char) (r : RPath) (h0 : resolve fs0 fuel0 dir = .ok sp)
+    (hn0 : NoLoopHit fs0 fuel0 dir) (hframe : ∀ q, q <+: sp.comps → lstat fs q = lstat fs0 q)
+    (hr : resolve fs fuel sp = .ok r) (hroot : sp.comps ≠ []) :
+    ∃ c, ∀ t ∈ (opFileHandle fs fuel sp key fname mode).touched,
+      t = .createDir (sp.comps ++ [c]) ∨ ∃ f, t = .write (sp.comps ++ [c, f]) := by
+  obtain ⟨hl, hn⟩ := ctor_root_link_free fs0 fs fuel0 dir sp h0 hn0 hframe
+  exact file_handle_touches_linkfree_root fs fuel sp key fname mode r hr hroot hl hn
+
+/-- the last component of a resolved path with a known parent is a normal component -/
+theorem child_normal (fs : FS) (fuel : Nat) (p kp : RPath) (a : P) (c : Comp)
+    (h : resolve fs fuel p = .ok kp) (hk : kp.comps = a ++ [c]) : c ≠ [] ∧ c ≠ dot ∧ c ≠ dotdot :=
+  resolve_normal fs fuel p kp h c (by rw [hk]; simp)
+
+/-- **delete, NO hypothesis on the root**: whatever the stored root runs through (symlinks, loops,
+    the `realpath` fallback), the only node `delete` can remove is the child `c` of the directory `R`
+    that the kernel reaches through `storage_path.resolve()` -/
+theorem delete_touches_real (fs : FS) (fuel : Nat) (sp : RPath) (key : List Char) (r : RPath)
+    (hr : resolve fs fuel sp = .ok r) (hroot : r.comps ≠ []) :
+    ∃ c, ∀ t ∈ (opDelete fs fuel sp key).touched,
+      ∃ R, kwalk fs true linkBudget [] r.comps = .ok R ∧ lstat fs R = some .dir ∧ t = .remove (R ++ [c]) := by
+  cases hkp : keyToPath fs fuel sp key with
+  | error e => exact ⟨[], by simp [opDelete, hkp]⟩
+  | ok kp =>
+    obtain ⟨c, hc⟩ := validate_direct_child fs fuel sp key kp r hr hroot hkp
+    have hkc : kp.comps = r.comps ++ [c] := by rw [hc]
+    have hcn := child_normal fs fuel _ kp r.comps c (keyToPath_ok fs fuel sp key kp hkp).2.2.1 hkc
+    refine ⟨c, ?_⟩
+    simp only [opDelete, hkp]
+    split
+    · simp
+    · simp
+    · intro t ht
+      simp only [doRmtree, hkc] at ht
+      cases hw : kwalk fs false linkBudget [] (r.comps ++ [c]) with
+      | error e => simp [hw] at ht
+      | ok loc =>
+        obtain ⟨R, hR, hRd, hloc⟩ := kwalk_snoc_nofollow fs c hcn linkBudget r.comps [] loc hw
+        refine ⟨R, hR, hRd, ?_⟩
+        simp only [hw] at ht
+        split at ht
+        · simp only [List.mem_singleton] at ht; rw [ht, hloc]
+        · simp at ht
+        · simp at ht
+        · simp at ht
+
+/-- **file_handle, NO hypothesis on the root**: with `R` the directory the kernel reaches through
+    `storage_path.resolve()`, the only node `file_handle` can create is the directory `R/c` and the
+    only node it can write is a direct child `R/c/f` of it — whatever symlinks or loops the stored
+    root, the key or the filename run through (the `mkdir` in between is taken into account) -/
+theorem file_handle_touches_real (fs : FS) (fuel : Nat) (sp : RPath) (key fname mode : List Char)
+    (r : RPath) (hr : resolve fs fuel sp = .ok r) (hroot : r.comps ≠ []) :
+    ∃ c, ∀ t ∈ (opFileHandle fs fuel sp key fname mode).touched,
+      ∃ R, kwalk fs true linkBudget [] r.comps = .ok R ∧ lstat fs R = some .dir ∧
+        (t = .createDir (R ++ [c]) ∨ ∃ f, t = .write (R ++ [c, f])) := by
+  cases hkp : keyToPath fs fuel sp key with
+  | error e => exact ⟨[], by simp [opFileHandle, hkp]⟩
+  | ok kp =>
+    obtain ⟨c, hc⟩ := validate_direct_child fs fuel sp key kp r hr hroot hkp
+    have hkc : kp.comps = r.comps ++ [c] := by rw [hc]
+    have hcn := child_normal fs fuel _ kp r.comps c (keyToPath_ok fs fuel sp key kp hkp).2.2.1 hkc
+    have hksym := key_end_not_symlink fs fuel sp key kp hkp
+    refine ⟨c, ?_⟩
+    rcases mkdir_real fs kp r.comps c hkc hcn hksym with ⟨e, hfail⟩ | ⟨R, hR, hRd, hR', hnl', hmk⟩
+    · simp [opFileHandle, hkp, hfail]
+    · simp only [opFileHandle, hkp]
+      generalize doMkdir fs kp = m at hR' hnl' hmk ⊢
+      cases m
+      case failed e => simp
+      all_goals
+        simp only []
+        split
+        · intro t ht; exact ⟨R, hR, hRd, Or.inl (hmk t ht)⟩
+        · rename_i fp hfp
+          split
+          · intro t ht; exact ⟨R, hR, hRd, Or.inl (hmk t ht)⟩
+          · rename_i hpar
+            have hpar' : fp.parent = kp := by simpa using hpar
+            obtain ⟨f, hf⟩ := child_of_parent fp kp r c hc hpar'
+            split
+            · intro t ht; exact ⟨R, hR, hRd, Or.inl (hmk t ht)⟩
+            · intro t ht; exact ⟨R, hR, hRd, Or.inl (hmk t ht)⟩
+            · rename_i hsym
+              intro t ht
+              rcases List.mem_append.mp ht with h1 | h1
+              · exact ⟨R, hR, hRd, Or.inl (hmk t h1)⟩
+              · have hfc : fp.comps = (r.comps ++ [c]) ++ [f] := by rw [hf]; simp
+                have hfn := child_normal _ fuel _ fp _ f hfp hfc
+                obtain ⟨K, hK, _, htw⟩ := doOpen_real _ fp mode (r.comps ++ [c]) f hfc hfn hsym t h1
+                obtain ⟨R2, hR2, _, _, hK2⟩ := kwalk_snoc_follow _ c hcn linkBudget r.comps [] K hK
+                rw [hR'] at hR2
+                cases hR2
+                have hKe : K = R ++ [c] := hK2 hnl'
+                exact ⟨R, hR, hRd, Or.inr ⟨f, by rw [htw, hKe]; simp⟩⟩
+
+/-- in the tree of `root_loop_witness` (stored root `/s`, `R = /o`): `file_handle('n','f','w')` creates
+    `/o/n = R/n` and is then rejected (the filename resolves to `/o/n/f`, whose parent is not the
+    unresolved key path `/t/n`) -/
+example : (opFileHandle fsL 5 ⟨false, [['s']]⟩ ['n'] ['f'] ['w']).touched = [.createDir [['o'], ['n']]] ∧
+    (opFileHandle fsL 5 ⟨false, [['s']]⟩ ['n'] ['f'] ['w']).result = .error .storage := by decide
+
+/-- in `root_loop_witness`: `R = /o`, the node removed is `R/k` -/
+example : ∃ R, kwalk fsL true linkBudget [] [['t']] = .ok R ∧ lstat fsL R = some .dir ∧
+    (opDelete fsL 5 ⟨false, [['s']]⟩ ['k']).touched = [.remove (R ++ [['k']])] :=
+  ⟨[['o']], by decide, by decide, by decide⟩
+
+/-- non-vacuity of the `…_linkfree_root` / `…_ctor_partial` hypotheses in the tree `fsW` (root `/s`) -/
+example : LinkFree fsW [['s']] ∧ NormalP [['s']] := by
+  constructor
+  · intro q hq
+    rcases List.prefix_cons_iff.mp hq with h | ⟨t, rfl, ht⟩
+    · subst h; decide
+    · have : t = [] := List.prefix_nil.mp ht
+      subst this; decide
+  · intro c hc
+    simp only [List.mem_singleton] at hc
+    subst hc; decide
 
 end Lt.Props.C18
